@@ -3,6 +3,7 @@
 package bisweep
 
 import (
+	"fmt"
 	"math/rand"
 	"testing"
 
@@ -52,6 +53,21 @@ func TestLive(t *testing.T) {
 			if _, st := e.Judge(l); len(st.Inconclusive) != 0 {
 				t.Fatalf("%s: %v", m, st.Inconclusive)
 			}
+		}
+	}
+	// clean stop in mid-traffic, then a fresh start
+	for i, spec := range []StopSpec{{AtByte: 200, Frags: 1}, {AtRequest: 12, Frags: 1}} {
+		c := Case{Key: fmt.Sprintf("livestop%d", i), Mode: config.ReplayModeSync, Window: 1, NCmds: 20, PTxn: 0.1, MaxTxn: 2, Frags: 1, Base: 7000}
+		r := rand.New(rand.NewSource(5))
+		e := NewEnv(r, c, d, NewStandalone)
+		l, why := e.RunStopped(r, spec)
+		if l == nil || !l.Stopped {
+			t.Fatalf("clean stop %v: %s", spec, why)
+		}
+		cuts := l.Cuts()
+		nl, why := e.Restart(r, l, cuts[len(cuts)-1], 1, nil, "livestop")
+		if nl == nil || !nl.Completed {
+			t.Fatalf("restart after clean stop %v: %s %+v", spec, why, nl)
 		}
 	}
 }
